@@ -142,6 +142,17 @@ pub fn replay(id: &str, path: &str) -> i32 {
     let sub = doc.get("subcheck").and_then(|s| s.as_str()).unwrap_or("");
     let sub = sub.strip_prefix("regress-").unwrap_or(sub);
     let case = doc.get("case").cloned().unwrap_or(Value::Null);
+    // In a campaign a case is never the first thing its thread does. Some violations (state that
+    // survives from one builder to the next) only show with a history, so the replay gives the
+    // thread one: a default-geometry build large enough to fill most of the node cache, and a
+    // small one, before the saved case runs.
+    {
+        let warm = crate::gen::Recipe { kind: 1, n: 60_000, seed: 0x5eed, fanout: 4, keylen: 10, values: 2 };
+        let _ = crate::engine::catch(|| {
+            let _ = crate::gen::build_plain(&warm.pairs(), false);
+            let _ = crate::gen::build_plain(&vec![(b"a".to_vec(), 1), (b"b".to_vec(), 2)], false);
+        });
+    }
     match (p.replay)(sub, &case) {
         Some(Ok(())) => {
             println!("replay {}: property {} holds on this case", path, id);
